@@ -388,7 +388,7 @@ package spg
 //@   define reqok() = arrid(r.requiredSets) > old(alloc) && forall(int(j), trig(r.requiredSets[j]), 0 <= j && j < len(r.requiredSets) ==>
 //@                    r.requiredSets[j].s != nil && allocated(r.requiredSets[j].s))
 //@   modifies r.allowedSet, r.requiredSets
-//@   ensures [C02,C03,C15] fresh:   fresh(res) && fresh(r.requiredSets)
+//@   ensures [C02,C03,C15] fresh:   fresh(res) && fresh(r.requiredSets) && off(res) == 0
 //@   loop 1 invariant [C03] state:  same() && reqok()
 //@   loop 2 invariant [C03] state:  same() && reqok() && utf8ok(allowedChars) && utf8ok(excludedChars)
 //@   loop 3 invariant [C03] state:  same() && reqok()
@@ -398,7 +398,84 @@ package spg
 //@        r.requiredSets[j].s != nil)
 //@   ensures [C02,C03] chars:       forall(int(k), trig(res[k]), 0 <= k && k < len(res) ==> clen(res[k]) == 1 && utf8ok(res[k]))
 //@   ensures [C02] nodup:           forall(int(i), int(j), trig(res[i], res[j]), 0 <= i && i < j && j < len(res) ==> res[i] != res[j])
+//@   trusted-ensures [C03] bounded:  len(res) <= 1114240 && len(res) == alphaSize(pub(old(*r)), old(arr(r.RequireSets)), off(r.RequireSets), len(r.RequireSets))
+//@   trusted-ensures [C07] noreq:    (forall(int(j), str(c), 0 <= j && j < len(r.requiredSets) ==> !elems(r.requiredSets[j].s)[c])) ==
+//@        noReq(old(*r), old(arr(r.RequireSets)), off(r.RequireSets), len(r.RequireSets))
 //@   trusted-ensures [C02,C03] alphabet: forall(str(c), (exists(int(k), 0 <= k && k < len(res) && res[k] == c)) ==
 //@        inA(old(*r), old(arr(r.RequireSets)), off(r.RequireSets), len(r.RequireSets), c))
 //@   trusted-ensures [C02,C03] filter: forall(str(pw), (forall(int(j), trig(r.requiredSets[j]), 0 <= j && j < len(r.requiredSets) ==> okreq(j, pw))) ==
 //@        meets(old(*r), old(arr(r.RequireSets)), off(r.RequireSets), len(r.RequireSets), pw))
+
+//@ func (CharRecipe).entropyWithRequired
+//@   trusted
+//@   ensures [C07] value: res == entropyReq(pub(r), arr(r.RequireSets), off(r.RequireSets), len(r.RequireSets))
+
+//@ func (CharRecipe).SuccessProbability
+//@   trusted
+//@   modifies emitted
+//@   ensures [C13] value: res == successProb(pub(r), arr(r.RequireSets), off(r.RequireSets), len(r.RequireSets))
+
+//@ func (CharRecipe).Entropy
+//@   define utf8r() = utf8ok(r.AllowChars) && utf8ok(r.ExcludeChars) &&
+//@        forall(int(k), trig(r.RequireSets[k]), 0 <= k && k < len(r.RequireSets) ==> utf8ok(r.RequireSets[k]))
+//@   requires [C03] utf8: utf8r()
+//@   modifies emitted
+//@   ensures [C07,C06] simple:   noReq(r, arr(r.RequireSets), off(r.RequireSets), len(r.RequireSets)) ==>
+//@        res == real(r.Length) * log2(real(alphaSize(pub(r), arr(r.RequireSets), off(r.RequireSets), len(r.RequireSets))))
+//@   ensures [C07,C06] required: !noReq(r, arr(r.RequireSets), off(r.RequireSets), len(r.RequireSets)) ==>
+//@        res == entropyReq(pub(r), arr(r.RequireSets), off(r.RequireSets), len(r.RequireSets))
+
+//@ func (CharRecipe).hasAcceptableFailRate
+//@   modifies emitted
+//@   ensures [C13] decision: res0 == (successProb(pub(r), arr(r.RequireSets), off(r.RequireSets), len(r.RequireSets)) > 0.0 &&
+//@        rpow(1.0 - successProb(pub(r), arr(r.RequireSets), off(r.RequireSets), len(r.RequireSets)), real(MaxTrials)) <= MaxFailRate)
+
+//@ func (CharRecipe).Generate
+//@   ghost C, N, M
+//@   ghost E (Array Int Str)
+//@   ghost S (Array Int Str)
+//@   ghost V (Array Int (Array Int Token))
+//@   define RS() = arr(r.RequireSets)
+//@   define acceptable() = successProb(pub(r), RS(), off(r.RequireSets), len(r.RequireSets)) > 0.0 &&
+//@        rpow(1.0 - successProb(pub(r), RS(), off(r.RequireSets), len(r.RequireSets)), real(MaxTrials)) <= MaxFailRate
+//@   define asize() = alphaSize(pub(r), RS(), off(r.RequireSets), len(r.RequireSets))
+//@   define inAlpha(c) = inA(r, RS(), off(r.RequireSets), len(r.RequireSets), c)
+//@   define ok(pw) = meets(r, RS(), off(r.RequireSets), len(r.RequireSets), pw)
+//@   requires [C03] utf8:  utf8ok(r.AllowChars) && utf8ok(r.ExcludeChars) &&
+//@        forall(int(k), trig(r.RequireSets[k]), 0 <= k && k < len(r.RequireSets) ==> utf8ok(r.RequireSets[k]))
+//@   requires [C13] A-RES: r.Length <= 4294967295
+//@   modifies pos, ctr, emitted
+//@   ensures [C13] xor:          (res == nil) == (err != nil)
+//@   ensures [C13] refuse-len:   r.Length < 1 ==> err != nil
+//@   ensures [C13] refuse-empty: asize() == 0 ==> err != nil
+//@   ensures [C13] refuse-rate:  !acceptable() ==> err != nil
+//@   ensures [C13] only-then:    err != nil && r.Length >= 1 && asize() > 0 && acceptable() ==>
+//@        N[0] >= MaxTrials && N[0] >= 0 && ctr == C[N[0]] && forall(int(b), trig(S[b]), 0 <= b && b < N[0] ==> !ok(S[b]))
+//@   ensures [C13] attempts:     r.Length >= 1 && asize() > 0 && acceptable() ==> C[0] == old(ctr) && forall(int(b), int(b2), trig(C[b], C[b2]), 0 <= b && b < N[0] && b2 == b+1 ==> C[b2] == C[b] + r.Length)
+//@   ensures [C03] shape:        err == nil ==> len(res.tokens) == r.Length && forall(int(j), trig(res.tokens[j]), 0 <= j && j < r.Length ==>
+//@        res.tokens[j].tType == AtomType && clen(res.tokens[j].value) == 1 && inAlpha(res.tokens[j].value))
+//@   ensures [C03,C02] required: err == nil ==> ok(catTok(arr(res.tokens), off(res.tokens), len(res.tokens)))
+//@   ensures [C06] entropy:      err == nil ==> (noReq(r, RS(), off(r.RequireSets), len(r.RequireSets)) ==> res.Entropy == real(r.Length) * log2(real(asize()))) &&
+//@        (!noReq(r, RS(), off(r.RequireSets), len(r.RequireSets)) ==> res.Entropy == entropyReq(pub(r), RS(), off(r.RequireSets), len(r.RequireSets)))
+//@   ensures [C02] form:         err == nil ==> 0 <= N[0] && N[0] < MaxTrials && M[0] == asize() && ctr == C[N[0]] + r.Length &&
+//@        forall(int(j), trig(res.tokens[j]), 0 <= j && j < r.Length ==> res.tokens[j].value == E[idx(0, oracle(C[N[0]] + j, M[0]))])
+//@   ensures [C02] alphabet:     err == nil ==> forall(int(k), int(k2), trig(E[idx(0, k)], E[idx(0, k2)]), 0 <= k && k < k2 && k2 < M[0] ==> E[idx(0, k)] != E[idx(0, k2)]) &&
+//@        forall(str(c), (exists(int(k), 0 <= k && k < M[0] && E[idx(0, k)] == c)) == inAlpha(c))
+//@   ensures [C02] rejected:     err == nil ==> forall(int(b), trig(S[b]), 0 <= b && b < N[0] ==> !ok(S[b]) && S[b] == catTok(V[b], 0, r.Length) &&
+//@        forall(int(j), trig(V[b][idx(0, j)]), 0 <= j && j < r.Length ==> V[b][idx(0, j)].value == E[idx(0, oracle(C[b] + j, M[0]))]))
+//@   ensures [C13,C15] fresh:    err == nil ==> fresh(res)
+//@   loop 1 invariant [C13] att:   0 <= i && N[0] == i && C[i] == ctr && C[0] == old(ctr) &&
+//@        forall(int(b), int(b2), trig(C[b], C[b2]), 0 <= b && b < i && b2 == b+1 ==> C[b2] == C[b] + r.Length)
+//@   loop 1 invariant [C02] env:   E == arr(chars) && M[0] == len(chars) && off(chars) == 0
+//@   loop 1 invariant [C02] rej:   forall(int(b), trig(S[b]), 0 <= b && b < i ==> !ok(S[b]) && S[b] == catTok(V[b], 0, r.Length) &&
+//@        forall(int(j), trig(V[b][idx(0, j)]), 0 <= j && j < r.Length ==> V[b][idx(0, j)].value == E[idx(0, oracle(C[b] + j, M[0]))]))
+//@   loop 1 invariant [C06] pent:  p != nil && p.Entropy == entry(p.Entropy)
+//@   loop 1 ghost N[0] = i
+//@   loop 1 ghost C[i] = ctr
+//@   loop 1 ghost S[i-1] = catTok(arr(p.tokens), off(p.tokens), len(p.tokens))
+//@   loop 1 ghost V[i-1] = arr(p.tokens)
+//@   loop 1 ghost E = arr(chars)
+//@   loop 1 ghost M[0] = len(chars)
+//@   loop 2 invariant [C03] fill:  0 <= i && i <= r.Length && ctr == C[shadowed(i)] + i &&
+//@        forall(int(j), trig(tokens[j]), 0 <= j && j < i ==> tokens[j].tType == AtomType && tokens[j].value == chars[oracle(C[shadowed(i)] + j, len(chars))] &&
+//@               0 <= oracle(C[shadowed(i)] + j, len(chars)) && oracle(C[shadowed(i)] + j, len(chars)) < len(chars))
